@@ -56,7 +56,9 @@ PROGRAMS = [
     (["mux", [["naive", "drift"], ["poly", 1]], 1], True, None),
     (["ttf", [["log"]], ["poly", 1]], True, None),
     (["ttf", [["rect", "T", 2.0, 1.0]], ["naive", "mean", 1, 4]], True, None),
-    (["ttf", [["detrend", 1]], ["naive", "last"]], False, None),
+    # the detrender refits on update but the residuals the inner forecaster remembers are not
+    # recomputed: equivalence with a fresh fit only right after a non-empty refitting update
+    (["ttf", [["detrend", 1]], ["naive", "last"]], "after-U", None),
     (["ttf", [["deseason", 3, "additive"]], ["naive", "last"]], False, None),
     (["stack", [["naive", "last"], ["poly", 1]]], False, None),
     (["grid", ["naive", "last"], {"strategy": ["last", "mean"]}], False, None),
@@ -318,6 +320,8 @@ def _check_state(res, tag, spec, f, sim, hist, fh_fit, refit_eq, cf, pd_before, 
                         "parameters", observed=H)
             return True
     # refit equivalence
+    if refit_eq == "after-U":
+        refit_eq = bool(hist) and hist[-1][0] in ("U", "O") and hist[-1][-1] is True
     if refit_eq and sim.epoch == dict(sim.mem) and hist:
         g = fmenu.build(spec)
         ref = call(lambda: _predictions(g.fit(sim.mem_series(), fh=fh_fit), fh_fit))
